@@ -67,6 +67,44 @@ def h_rank(p: int, q: int, t0: int, t1: int, t2: int, q0: int, q1: int, q2: int)
     return ra[0] == rb[0] and ra[1] == rb[1]
 
 
+def h_rank_time(p: int, q: int, ki: int, ei: int) -> bool:
+    """
+    real assignment_ops.shortest_time_to_charge_ranking (the non-default charging search) under two iteration orders of the
+    station's plug set AND of any immutables.Map the function itself builds (stubs.install_perm_maps): the chosen plug and the
+    estimate agree.  Ties are forced the two ways they arise in a run: the estimate is capped by the time left in the
+    simulation (ki steps), or the vehicle is already at the target.
+    pre: 0 <= p <= 5 and 0 <= q <= 5 and p < q and 0 <= ki <= 3 and 0 <= ei <= 2
+    post: _
+    """
+    pa, pb = perm_of(p, 3), perm_of(q, 3)
+    k = e = None
+    for j in range(4):
+        if ki == j:
+            k = j
+    for j, lvl in enumerate((10.0, 49.0, 50.0)):
+        if ei == j:
+            e = lvl
+    if pa is None or pb is None or k is None or e is None:
+        return True
+    stubs.install_perm_maps(assignment_ops)  # also in concrete replay: the order is the thing being varied
+    cfg = A.ENV0.config
+    t0 = int(A.SIM0.sim_time)
+    env = A.ENV0._replace(config=cfg._replace(sim=cfg.sim._replace(end_time=t0 + k * 60)))
+    sim = A.SIM0._replace(sim_timestep_duration_seconds=60)
+    veh = replace(VB, energy=immutables.Map({A.E: e}))
+    out = []
+    for perm in (pa, pb):
+        stubs.PermMap.PERM = perm
+        st = _station3(1, 1, 1, 0, 0, 0, perm)
+        out.append(assignment_ops.shortest_time_to_charge_ranking(sim, env, veh, st, 1.0))  # ---- real code
+    stubs.PermMap.PERM = (0, 1, 2)
+    ra, rb = out
+    note("rank-time", k, e, None if ra is None else ra[0])
+    if ra is None or rb is None:
+        return ra is None and rb is None
+    return ra[0] == rb[0] and ra[1] == rb[1]
+
+
 # ---- nearest_entity: two stations in two different search cells of ring 1 around the vehicle's search cell
 _CENTER = real_h3.h3_to_parent(A.CELL_A, A.SEARCH_RES)
 _RING1 = sorted(real_h3.k_ring(_CENTER, 1) - {_CENTER})
